@@ -305,9 +305,9 @@ func (c *Ctx) lk1PhaseOrder() []Obligation {
 }
 
 // lk2Exempt: frozen exemptions of LK-2 keyed "func map".
-var lk2Exempt = map[string]string{
-	"asm.(*generator).irFuncAttribute newIndex.attrGroupDefs": "documented behaviour: a reference to an undefined attribute group materialises an empty group (stated as the one exception in the property)",
-}
+var lk2Exempt = map[string]string{}
+
+const lk2AttrGroupWhy = "documented behaviour: a reference to an undefined attribute group materialises an empty group and records it in the index (stated as the one exception in the property)"
 
 func ruleLK2(c *Ctx) []Obligation {
 	var obs []Obligation
@@ -371,6 +371,27 @@ func ruleLK2(c *Ctx) []Obligation {
 					o.Verdict, o.Detail = EXEMPT, why
 					obs = append(obs, o)
 					continue
+				}
+				// the one exception the property states, recognised by what the code does rather
+				// than by the function it sits in: a reference to an undefined attribute group
+				// materialises an empty group *and records it in the index under the same key*
+				if mname == "newIndex.attrGroupDefs" {
+					materialises := false
+					ast.Inspect(fd.Body, func(m ast.Node) bool {
+						if a2, ok := m.(*ast.AssignStmt); ok && a2.Pos() > as.Pos() {
+							for _, l := range a2.Lhs {
+								if lx, ok := unparen(l).(*ast.IndexExpr); ok && mapFieldName(info, lx.X) == mname && exprString(lx.Index) == exprString(ix.Index) {
+									materialises = true
+								}
+							}
+						}
+						return true
+					})
+					if materialises {
+						o.Verdict, o.Detail = EXEMPT, lk2AttrGroupWhy
+						obs = append(obs, o)
+						continue
+					}
 				}
 				// a lookup helper that hands (value, ok) back: the test is the caller's; every call
 				// site must test the returned ok immediately and report the miss as an error
@@ -470,6 +491,55 @@ func ruleLK2(c *Ctx) []Obligation {
 				obs = append(obs, o)
 			}
 		}
+		// an index kept as a slice or array (definitions indexed by ID): there is no comma-ok, a
+		// hole yields the zero value — the read must be `v := idx[k]` directly followed by
+		// `if v == nil { return …, err }`
+		pm := buildParents(fd.Body)
+		nSl := 0
+		ast.Inspect(fd.Body, func(nd ast.Node) bool {
+			ix, ok := nd.(*ast.IndexExpr)
+			if !ok {
+				return true
+			}
+			switch info.TypeOf(ix.X).Underlying().(type) {
+			case *types.Slice, *types.Array:
+			default:
+				return true
+			}
+			mname := mapFieldName(info, ix.X)
+			if !strings.HasPrefix(mname, "newIndex.") && mname != "funcGen.locals" {
+				return true
+			}
+			if as, ok := pm[ix].(*ast.AssignStmt); ok {
+				for _, l := range as.Lhs {
+					if l == ast.Expr(ix) {
+						return true // a store
+					}
+				}
+			}
+			if !c.keyIsDecoded(info, defs, ix.Index) {
+				return true
+			}
+			nSl++
+			o := Obligation{Key: fmt.Sprintf("%s %s (slice) #%d", funcKey(fn), mname, nSl), Pos: c.pos(ix.Pos()), Verdict: VIOL, Tags: asmTags(fn.Name(), mname),
+				Detail: "the index is a slice read with an identifier taken from the input: a number inside the range for which no definition exists yields nil, and nothing after the read turns that into an error — the reference is silently bound to nothing (or crashes a later step)"}
+			if as, ok := pm[ix].(*ast.AssignStmt); ok && len(as.Lhs) == 1 {
+				if v, ok := as.Lhs[0].(*ast.Ident); ok {
+					for _, list := range lists {
+						for i, st := range list {
+							if st != ast.Stmt(as) || i+1 >= len(list) {
+								continue
+							}
+							if g, ok := list[i+1].(*ast.IfStmt); ok && strings.ReplaceAll(exprString(g.Cond), " ", "") == v.Name+"==nil" && returnsError(info, g.Body.List) {
+								o.Verdict, o.Detail = OK, "hole → error"
+							}
+						}
+					}
+				}
+			}
+			obs = append(obs, o)
+			return true
+		})
 	})
 	return obs
 }
